@@ -1749,9 +1749,111 @@ theorem WF.step_publish_many {st : St} (h : WF st) (tn : String) (tick : Int) (m
         injection hp with hp; subst hp
         exact WF.publishLoop tn t tick htick ms st.db st.now [] db' wakes h ht hl
 
+/-- a row map that changes nothing but next-attempt times -/
+def OnlyAttemptAt (g : Delivery → Delivery) : Prop := ∀ x, ∃ t, g x = { x with attemptAt := t }
+
+theorem OnlyAttemptAt.id : OnlyAttemptAt (fun x => x) := fun x => ⟨x.attemptAt, rfl⟩
+
+theorem OnlyAttemptAt.comp {g h : Delivery → Delivery} (hg : OnlyAttemptAt g) (hh : OnlyAttemptAt h) :
+    OnlyAttemptAt (fun x => h (g x)) := by
+  intro x
+  obtain ⟨t1, h1⟩ := hg x
+  obtain ⟨t2, h2⟩ := hh (g x)
+  refine ⟨t2, ?_⟩
+  show h (g x) = _
+  rw [h2, h1]
+
+/-- without dead-letter policies the loop of a nack only moves next-attempt times -/
+theorem nackLoop_noDL (now : Time) (delays : List (Id × Int)) (fwds : List (Id × List Fwd)) :
+    ∀ (rows : List Delivery) (acc acc' : NackAcc),
+      (∀ s ∈ acc.db.subs, ∀ d, s.dlTarget d = none) →
+      nackLoop now delays fwds rows acc = .ok acc' →
+      ∃ g, OnlyAttemptAt g ∧ acc'.db = { acc.db with dels := acc.db.dels.map g } := by
+  intro rows
+  induction rows with
+  | nil =>
+    intro acc acc' _ h
+    unfold nackLoop at h
+    injection h with h; subst h
+    exact ⟨fun x => x, OnlyAttemptAt.id, by simp⟩
+  | cons d r ih =>
+    intro acc acc' hno h
+    unfold nackLoop at h
+    split at h
+    · cases h
+    · rename_i s hs
+      have hsm : s ∈ acc.db.subs := by unfold Db.subById at hs; exact List.mem_of_find?_eq_some hs
+      rw [hno s hsm d] at h
+      simp only at h
+      split at h
+      · cases h
+      · rename_i δ _
+        obtain ⟨g, hg, hdb⟩ := ih _ acc' (by simpa using hno) h
+        refine ⟨fun x => g (if (x.id == d.id) = true then { x with attemptAt := now + δ } else x), ?_, ?_⟩
+        · apply OnlyAttemptAt.comp _ hg
+          intro x
+          by_cases hx : (x.id == d.id) = true
+          · refine ⟨now + δ, ?_⟩
+            show (if (x.id == d.id) = true then { x with attemptAt := now + δ } else x) = _
+            rw [if_pos hx]
+          · refine ⟨x.attemptAt, ?_⟩
+            show (if (x.id == d.id) = true then { x with attemptAt := now + δ } else x) = _
+            rw [if_neg hx]
+        · rw [hdb]
+          simp only [setAttemptAt, updateWhere, List.map_map]
+          rfl
+
+theorem nack_noDL_shape {db : Db} {now : Time} {ids : List Id} {delays : List (Id × Int)} {fwds : List (Id × List Fwd)}
+    {o : TxOut (Nat × Nat)} (hno : ∀ s ∈ db.subs, ∀ d, s.dlTarget d = none) (h : nack db now ids delays fwds = .ok o) :
+    ∃ g, OnlyAttemptAt g ∧ o.db = { db with dels := db.dels.map g } := by
+  unfold nack at h
+  simp only at h
+  split at h
+  · cases h
+  · rename_i acc hacc
+    injection h with h; subst h
+    exact nackLoop_noDL now delays fwds _ _ acc hno hacc
+
+/-- **a nack on a topology without dead-letter policies refines the ordered-delivery step** -/
+theorem C05_refines_nack_no_dl (st : St) (ids : List Id) (delays : List (Id × Int)) (fwds : List (Id × List Fwd))
+    (hno : ∀ s ∈ st.db.subs, ∀ d, s.dlTarget d = none) :
+    Ord.stepOk true st.db st.now (step st (.nack ids delays fwds)).1.db (step st (.nack ids delays fwds)).1.now = true := by
+  simp only [step]
+  cases hn : nack st.db st.now ids delays fwds with
+  | error e => simp only [finish]; exact Ord.stepOk_of_same st.db st.now _ st.now (Int.le_refl _) rfl rfl rfl
+  | ok o =>
+    simp only [finish]
+    obtain ⟨g, hg, hdb⟩ := nack_noDL_shape hno hn
+    refine Ord.stepOk_of_map st.db st.now _ st.now g (Int.le_refl _) (by rw [hdb]) (by rw [hdb]) ?_
+    intro d _
+    obtain ⟨t, ht⟩ := hg d
+    rw [ht]
+    exact Ord.rowUpdOk_attemptAt st.db st.now _ (by rw [hdb]) d t
+
+theorem WF.step_nack {st : St} (h : WF st) (ids : List Id) (delays : List (Id × Int)) (fwds : List (Id × List Fwd)) :
+    WF (Mmmbbb.step st (.nack ids delays fwds)).1 := by
+  have hok := C05_refines_nack_no_dl st ids delays fwds h.noDL
+  revert hok
+  simp only [Mmmbbb.step]
+  cases hn : nack st.db st.now ids delays fwds with
+  | error e => intro _; simp only [finish]; exact h
+  | ok o =>
+    simp only [finish]
+    intro hok
+    obtain ⟨g, hg, hdb⟩ := nack_noDL_shape h.noDL hn
+    refine h.of_dels_map g id ?_ ?_ ?_ ?_ ?_ (Int.le_refl _) ?_ gsId hok
+    · rw [hdb]
+    · rw [hdb]; simp
+    · rw [hdb]
+    · rw [hdb]
+    · rw [hdb]
+    · intro d
+      obtain ⟨t, ht⟩ := hg d
+      rw [ht]; exact ⟨rfl, rfl, rfl, rfl⟩
+
 /-- the fragment: clock advances, topic and subscription creation (no dead-letter policy), publishes
     (single and batched, the clock ticking between messages), pulls (waiting or not), deadline changes
-    (positive, zero — the nack of a client library — and negative), acknowledgements of deliveries that
+    (positive, zero — the nack of a client library — and negative), nacks, acknowledgements of deliveries that
     have been handed out (the only ack ids a client can hold), and the two jobs that delete
     acknowledged / expired delivery rows -/
 def fragOk (st : St) : Op → Prop
@@ -1762,6 +1864,7 @@ def fragOk (st : St) : Op → Prop
   | .pull _ _ _ _ wait _ => 0 ≤ wait
   | .ack ids => ∀ d ∈ st.db.dels, ids.contains d.id = true → 0 < d.attempts
   | .delay _ _ => True
+  | .nack _ _ _ => True
   | .pruneCompletedDeliveries _ _ _ => True
   | .pruneExpiredDeliveries _ _ => True
   | _ => False
@@ -1782,6 +1885,7 @@ theorem WF.step {st : St} (h : WF st) (op : Op) (hf : fragOk st op) : WF (Mmmbbb
   | pull sn mx mb strict wait obs => exact h.step_pull sn mx mb strict wait obs hf
   | ack ids => exact h.step_ack ids hf
   | delay ids d => exact h.step_delay ids d
+  | nack ids ds fw => exact h.step_nack ids ds fw
   | pruneCompletedDeliveries a mx v => exact h.step_pruneCompletedDeliveries a mx v
   | pruneExpiredDeliveries mx v => exact h.step_pruneExpiredDeliveries mx v
   | _ => exact absurd hf (by simp [fragOk])
@@ -1794,7 +1898,7 @@ theorem WF.run : ∀ (ops : List Op) (st : St), WF st → fragRun st ops → WF 
 
 /-- **C05 on the fragment, outright**: for *every* history of clock advances, topic and subscription
     creations (without dead-letter policy), publishes (single and batched) with an advancing clock,
-    pulls, deadline changes (zero deadlines — nacks — included), acknowledgements of handed-out
+    pulls, deadline changes, nacks, acknowledgements of handed-out
     deliveries and runs of the jobs that delete acknowledged or expired deliveries — any number of
     subscriptions, keys, un-keyed messages in between, pulls of any size, acks in any order, lease
     and retention expiry, pruning of completed predecessors —
